@@ -488,6 +488,24 @@ func c11Families(tier string) []explore.Family {
 			m = mm
 		}
 		item := "{{ kv[1] }}:{{ forloop.index }},"
+		// an item kept by assign keeps ITS value while the loop moves on (first item, previous item)
+		keepSrc := "{% for kv in m %}{% if forloop.first %}{% assign keep = kv %}{% endif %}<{{ prev[1] }}>{% assign prev = kv %}{% endfor %}#{{ keep[1] }}#{{ keep[0] }}"
+		{
+			r.Eval()
+			ok := Render(c11.eng, keepSrc, map[string]any{"m": m})
+			plain := Render(c11.eng, "{% for kv in m %}{{ kv[1] }},{% endfor %}#{% for kv in m limit: 1 %}{{ kv[1] }}#{{ kv[0] }}{% endfor %}", map[string]any{"m": m})
+			if ok.Err == nil && plain.Err == nil && n > 0 {
+				vals := strings.Split(strings.SplitN(plain.Out, "#", 2)[0], ",")
+				want := "<>"
+				for k := 0; k+2 < len(vals); k++ {
+					want += "<" + vals[k] + ">"
+				}
+				want += "#" + strings.SplitN(plain.Out, "#", 2)[1]
+				if ok.Out != want {
+					r.Violation("wrong:map-selection:item-kept-by-assign", map[string]any{"template": keepSrc, "entries": n, "key_style": style, "map_kind": kind}, want, ok.Out)
+				}
+			}
+		}
 		src := "{% for kv in m %}" + item + "{% endfor %}|{% for kv in m reversed %}" + item + "{% endfor %}|" +
 			"{% for kv in m offset: 1 %}" + item + "{% endfor %}|{% for kv in m limit: 2 %}" + item + "{% endfor %}|" +
 			"{% for kv in m reversed offset: 1 limit: 2 %}" + item + "{% endfor %}|{% tablerow kv in m cols: 2 %}" + item + "{% endtablerow %}|" +
